@@ -316,6 +316,24 @@ func c19Gen(t *rapid.T) c19Case {
 			}
 		default:
 			a := c19Action{Kind: "notify"}
+			if rapid.IntRange(0, 4).Draw(t, "longbatch") == 0 {
+				// a long batch for (mostly) one interface, dominated by one kind of
+				// change: more changes than a subscriber can buffer arrive in one
+				// batch, of which a selective mask matches only a few, late ones
+				iface, dom := rapid.SampledFrom(c19Ifaces).Draw(t, "lbiface"), rapid.SampledFrom([]int{2, 6, 5, 1}).Draw(t, "lbdom")
+				for j, m := 0, rapid.IntRange(9, 30).Draw(t, "lbn"); j < m; j++ {
+					l := c19Link{Iface: iface, Oper: dom}
+					if rapid.IntRange(0, 3).Draw(t, "lbother") == 0 {
+						l.Oper = rapid.SampledFrom([]int{0, 1, 2, 3, 4, 5, 6}).Draw(t, "lboper")
+					}
+					if rapid.IntRange(0, 9).Draw(t, "lbotheriface") == 0 {
+						l.Iface = rapid.SampledFrom(c19Ifaces).Draw(t, "lbiface2")
+					}
+					a.Links = append(a.Links, l)
+				}
+				c.Actions = append(c.Actions, a)
+				continue
+			}
 			for j, m := 0, rapid.IntRange(1, 12).Draw(t, "nlinks"); j < m; j++ {
 				a.Links = append(a.Links, c19Link{Iface: rapid.SampledFrom(c19Ifaces).Draw(t, "liface"), Oper: rapid.SampledFrom([]int{0, 1, 2, 3, 4, 5, 6, 6, 2, 99, -1}).Draw(t, "oper")})
 			}
